@@ -100,3 +100,36 @@ Proof. vm_compute. repeat split; reflexivity. Qed.
 Lemma C03_trailing_fixed :
   Some (rr_emitted (run_native 100 [64] false false [] [TFile; TChunk [129; 1]; TFinish] (init (Some 30)))) = concat_spec (Some 30) [[129; 1]].
 Proof. vm_compute. reflexivity. Qed.
+
+(* ------------------------------------------------------------------ the two known (unrepaired) classes of C03, on the current model *)
+(* (1) a later member in the large-window format whose window field + first header need 6 bytes:
+   the bit-level specification does not apply (concat_spec = None, the header does not end inside
+   the 5 look-ahead bytes) and the concatenator answers BrotliFileNotCraftedForConcatenation. *)
+Definition KnownClass_header_exceeds_lookahead (override : option N) (ms : list (list N)) : Prop :=
+  concat_spec override ms = None.
+Definition m_large_meta3 : list N := [17; 22; 59; 0; 0; 1; 0; 0].     (* 14-bit WBITS (22), metadata, MSKIPBYTES = 3 *)
+Definition m_large_first : list N := [17; 22; 2; 0; 2; 97; 3].        (* large-window lgwin 22, uncompressed "a" *)
+Lemma known_header_exceeds_lookahead :
+  KnownClass_header_exceeds_lookahead None [m_large_first; m_large_meta3] /\
+  rr_final (run_native 100 [64] false false [] [TFile; TChunk m_large_first; TFile; TChunk m_large_meta3; TFinish] (init None))
+    = Done BrotliFileNotCraftedForConcatenation.
+Proof. vm_compute. split; reflexivity. Qed.
+
+(* (2) members of the large-window stream format mixed with RFC 7932 ones (or a window override
+   above 24 with RFC 7932 members): the class is inhabited and the concatenator reports Success;
+   that the result is not decodable is a fact about the two formats' distance alphabets, shown by
+   the check with two decoders, not in Coq. *)
+Definition large_format (m : list N) : bool :=
+  match rfc_wbits (byte_at m 0 + 256 * byte_at m 1) with Some (_, 14) => true | _ => false end.
+Definition KnownClass_mixed_formats (override : option N) (ms : list (list N)) : Prop :=
+  exists a b, In a ((match override with Some w => [24 <? w] | None => [] end) ++
+                   map large_format (filter (fun m => 5 <=? lenN m) ms)) /\
+              In b ((match override with Some w => [24 <? w] | None => [] end) ++
+                   map large_format (filter (fun m => 5 <=? lenN m) ms)) /\ a <> b.
+Lemma known_mixed_formats :
+  KnownClass_mixed_formats (Some 30) [[11; 0; 128; 97; 3]] /\
+  rr_final (run_native 100 [64] false false [] [TFile; TChunk [11; 0; 128; 97; 3]; TFinish] (init (Some 30))) = Done Success.
+Proof.
+  split; [|vm_compute; reflexivity].
+  exists true, false. vm_compute. repeat split; auto. discriminate.
+Qed.
